@@ -1002,6 +1002,7 @@ def inline_helpers(trees: Dict[str, ast.Module], anchors: Optional[Set[str]] = N
     """In-place.  Returns notes `module: helper -> n sites (dissolved|kept)`."""
     anchors = anchor_names() if anchors is None else anchors
     notes: List[str] = normalise_names(trees, anchors)
+    notes += dissolve_parameter_objects(trees)
     notes += fuse_wrappers(trees)
     notes += normalise_call_arguments(trees)
     notes += expand_forwarders(trees)
@@ -1541,6 +1542,141 @@ def normalise_call_arguments(trees: Dict[str, ast.Module]) -> List[str]:
     return [f"{n_calls} call(s) with keyword arguments read positionally"] if n_calls else []
 
 
+def dissolve_parameter_objects(trees: Dict[str, ast.Module]) -> List[str]:
+    """A dataclass the audited tree does not have, with fields only, that merely carries a group of arguments
+    through calls (`src = Bundle(a, b, c); f(src, x)` .. `def f(src: Bundle, x): .. src.a ..`) is read as the
+    separate arguments it bundles: the parameter becomes one parameter per field, `src.a` becomes `a`, a
+    bundle passed on is passed on field by field, the construction disappears."""
+    base = _baseline_defs()
+    notes: List[str] = []
+    if not base:
+        return notes
+    count: Dict[str, int] = {}
+    for t in trees.values():
+        for n in ast.walk(t):
+            if isinstance(n, _FUNC + (ast.ClassDef,)):
+                count[n.name] = count.get(n.name, 0) + 1
+    bundles: Dict[str, List[str]] = {}
+    for t in trees.values():
+        for c in t.body:
+            if not isinstance(c, ast.ClassDef) or c.name in base or count.get(c.name) != 1 or c.bases or c.keywords:
+                continue
+            if not any((isinstance(d, ast.Name) and d.id == "dataclass") or (isinstance(d, ast.Call) and isinstance(d.func, ast.Name) and d.func.id == "dataclass") for d in c.decorator_list):
+                continue
+            body = [x for x in c.body if not (isinstance(x, ast.Expr) and isinstance(x.value, ast.Constant))]
+            if body and all(isinstance(x, ast.AnnAssign) and isinstance(x.target, ast.Name) and x.value is None for x in body):
+                bundles[c.name] = [x.target.id for x in body]
+    for cname, fields in bundles.items():
+        funcs = []  # (function, index of the bundle parameter, parameter name)
+        ok_ = True
+        for t in trees.values():
+            for fn in [n for n in ast.walk(t) if isinstance(n, ast.FunctionDef)]:
+                for i, a in enumerate(fn.args.args):
+                    ann = a.annotation
+                    nm = ann.id if isinstance(ann, ast.Name) else (ann.value if isinstance(ann, ast.Constant) and isinstance(ann.value, str) else None)
+                    if nm == cname:
+                        funcs.append((fn, i, a.arg))
+        if not funcs:
+            continue
+        fnames = {f.name for f, _i, _p in funcs}
+        pos = {f.name: (i - (1 if f.args.args and f.args.args[0].arg in ("self", "cls") and i > 0 else 0)) for f, i, _p in funcs}
+        # every use of the parameter: `p.field` or a positional argument of a call of one of these functions
+        for fn, i, pn in funcs:
+            for n in ast.walk(fn):
+                if isinstance(n, ast.Name) and n.id == pn:
+                    if not isinstance(n.ctx, ast.Load):
+                        ok_ = False
+            clash = ({x.id for x in ast.walk(fn) if isinstance(x, ast.Name)} | {a.arg for a in fn.args.args}) & set(fields)
+            # `field = p.field` locals are fine (they become self-assignments and are dropped)
+            for st in ast.walk(fn):
+                if isinstance(st, ast.Assign) and len(st.targets) == 1 and isinstance(st.targets[0], ast.Name) and st.targets[0].id in clash and isinstance(st.value, ast.Attribute) and isinstance(st.value.value, ast.Name) and st.value.value.id == pn and st.value.attr == st.targets[0].id:
+                    pass
+            stores = {x.id for x in ast.walk(fn) if isinstance(x, ast.Name) and isinstance(x.ctx, ast.Store) and x.id in fields}
+            for nm_ in stores:
+                defs = [st for st in ast.walk(fn) if isinstance(st, ast.Assign) and any(isinstance(tg, ast.Name) and tg.id == nm_ for tg in st.targets)]
+                if not all(isinstance(st.value, ast.Attribute) and isinstance(st.value.value, ast.Name) and st.value.value.id == pn and st.value.attr == nm_ for st in defs):
+                    ok_ = False
+            if {a.arg for a in fn.args.args} & set(fields):
+                ok_ = False
+        if not ok_:
+            continue
+        # rewrite the functions
+        for fn, i, pn in funcs:
+            new_args = [ast.arg(arg=f_, annotation=None) for f_ in fields]
+            nd = len(fn.args.defaults)
+            first_default = len(fn.args.args) - nd
+            if i >= first_default:
+                continue
+            fn.args.args[i:i + 1] = new_args
+
+            class R(ast.NodeTransformer):
+                def visit_Attribute(self, n):
+                    self.generic_visit(n)
+                    if isinstance(n.value, ast.Name) and n.value.id == pn and n.attr in fields and isinstance(n.ctx, ast.Load):
+                        return ast.copy_location(ast.Name(id=n.attr, ctx=ast.Load()), n)
+                    return n
+
+                def visit_Call(self, n):
+                    self.generic_visit(n)
+                    new = []
+                    for a in n.args:
+                        if isinstance(a, ast.Name) and a.id == pn:
+                            new += [ast.copy_location(ast.Name(id=f_, ctx=ast.Load()), a) for f_ in fields]
+                        else:
+                            new.append(a)
+                    n.args = new
+                    return n
+
+            for k_, st in enumerate(list(fn.body)):
+                fn.body[k_] = R().visit(st)
+            # drop `field = field`
+            for holder in ast.walk(fn):
+                for fld in ("body", "orelse", "finalbody"):
+                    seq = getattr(holder, fld, None)
+                    if isinstance(seq, list):
+                        seq[:] = [st for st in seq if not (isinstance(st, ast.Assign) and len(st.targets) == 1 and isinstance(st.targets[0], ast.Name) and isinstance(st.value, ast.Name) and st.value.id == st.targets[0].id)] or ([ast.Pass()] if seq and isinstance(seq[0], ast.stmt) else seq)
+            ast.fix_missing_locations(fn)
+        # construction sites
+        n_sites = 0
+        for t in trees.values():
+            for fn in [n for n in ast.walk(t) if isinstance(n, ast.FunctionDef)]:
+                made: Dict[str, List[ast.AST]] = {}
+                for st in ast.walk(fn):
+                    if isinstance(st, ast.Assign) and len(st.targets) == 1 and isinstance(st.targets[0], ast.Name) and isinstance(st.value, ast.Call) and isinstance(st.value.func, ast.Name) and st.value.func.id == cname:
+                        c = st.value
+                        vals = list(c.args) + [None] * (len(fields) - len(c.args))
+                        for k in c.keywords:
+                            if k.arg in fields:
+                                vals[fields.index(k.arg)] = k.value
+                        if all(v is not None for v in vals) and len(vals) == len(fields):
+                            made[st.targets[0].id] = vals
+                if not made:
+                    continue
+                for call in [n for n in ast.walk(fn) if isinstance(n, ast.Call)]:
+                    new = []
+                    for a in call.args:
+                        if isinstance(a, ast.Name) and a.id in made:
+                            new += [copy.deepcopy(v) for v in made[a.id]]
+                            n_sites += 1
+                        else:
+                            new.append(a)
+                    call.args = new
+                for holder in ast.walk(fn):
+                    for fld in ("body", "orelse", "finalbody"):
+                        seq = getattr(holder, fld, None)
+                        if isinstance(seq, list):
+                            keep = []
+                            for st in seq:
+                                if isinstance(st, ast.Assign) and len(st.targets) == 1 and isinstance(st.targets[0], ast.Name) and st.targets[0].id in made and not any(isinstance(x, ast.Name) and x.id == st.targets[0].id and isinstance(x.ctx, ast.Load) for x in ast.walk(fn)):
+                                    continue
+                                keep.append(st)
+                            if len(keep) != len(seq):
+                                seq[:] = keep or [ast.Pass()]
+                ast.fix_missing_locations(fn)
+        notes.append(f"parameter object {cname}({', '.join(fields)}): {len(funcs)} function(s) read with separate parameters, {n_sites} construction site(s) dissolved")
+    return notes
+
+
 def fuse_wrappers(trees: Dict[str, ast.Module]) -> List[str]:
     """An audited definition W that has become a thin wrapper - its body is one call `[return] G(p1, .., pn)` of
     a definition G the audited tree does not have (or that has W's own name in another module: a move), with
@@ -1604,6 +1740,11 @@ def fuse_wrappers(trees: Dict[str, ast.Module]) -> List[str]:
                         if isinstance(s_, ast.FunctionDef) and s_.name == f.attr and s_ is not w:
                             g, ghome, gcls = s_, mod, cls
                             argnames = [wparams[0]] + argnames
+                elif isinstance(f, ast.Attribute) and isinstance(f.value, ast.Name) and cls is not None and f.value.id == cls.name:
+                    # Class.static_helper(..) from a static wrapper of the same class
+                    for s_ in cls.body:
+                        if isinstance(s_, ast.FunctionDef) and s_.name == f.attr and s_ is not w and any(isinstance(d, ast.Name) and d.id == "staticmethod" for d in s_.decorator_list):
+                            g, ghome, gcls = s_, mod, cls
                 if g is None or (g.name in base and g.name != w.name) or g.decorator_list and not all(isinstance(d, ast.Name) and d.id == "staticmethod" for d in g.decorator_list):
                     continue
                 if g.name != w.name and count.get(g.name, 0) != 1:
@@ -1661,8 +1802,10 @@ def fuse_wrappers(trees: Dict[str, ast.Module]) -> List[str]:
                                 if argnames != wparams and not call.keywords and len(call.args) == len(gparams):
                                     call.args = [call.args[argnames.index(p_)] for p_ in wparams]
                                 n_red += 1
-                        elif isinstance(cf, ast.Attribute) and cf.attr == g.name and not g_is_method and gcls is None and g.name != w.name and isinstance(cf.value, ast.Name):
+                        elif isinstance(cf, ast.Attribute) and cf.attr == g.name and not g_is_method and g.name != w.name and isinstance(cf.value, ast.Name):
                             cf.attr = w.name
+                            if argnames != wparams and not call.keywords and len(call.args) == len(gparams):
+                                call.args = [call.args[argnames.index(p_)] for p_ in wparams]
                             n_red += 1
                 refs = sum(1 for t2 in trees.values() for x in ast.walk(t2) if (isinstance(x, ast.Name) and x.id == g.name and not any(x is y for y in ast.walk(w))) and g.name != w.name)
                 holder = gcls.body if gcls is not None else trees[ghome].body
